@@ -204,6 +204,11 @@ func runHTLC(c *Ctx) {
 			{"pubkeys-without-nsigs", goodHash, [][]string{{"pubkeys", k0.hex}}, htlcWitnessJSON(pre, nil)},
 			{"nsigs-twice", goodHash, [][]string{{"n_sigs", "1"}, {"n_sigs", "0"}, {"pubkeys", k0.hex}}, htlcWitnessJSON(pre, nil)},
 			{"hash-65", goodHash + "0", nil, htlcWitnessJSON(pre, nil)},
+			// Go's len() counts BYTES: 63 hex digits and a two-byte rune are 64 characters but 65 bytes (Invalid hash), 62 and
+			// a two-byte rune are 63 characters but 64 bytes (passes the length test, then Invalid preimage). The model
+			// counted characters until the translation of VerifyHTLCProof was tied to it (corrected: utf8ByteSize).
+			{"hash-64-chars-65-bytes", goodHash[:63] + "é", nil, htlcWitnessJSON(pre, nil)},
+			{"hash-63-chars-64-bytes", goodHash[:62] + "é", nil, htlcWitnessJSON(pre, nil)},
 			{"hash-empty", "", nil, htlcWitnessJSON(pre, nil)},
 			{"hash-is-key", k0.hex[:64], nil, htlcWitnessJSON(pre, nil)},
 		}
